@@ -1332,11 +1332,39 @@ class OpAtom(Atom5):
         if f == "call":
             return [Func("operator ()", [Param(("int",), "a"), Param(("double",), "b")], ("int",),
                          const=True, cls=C)]
+        if f in ("call0", "call1", "call2", "call_all", "call_01"):
+            pl = {0: [], 1: [Param(("int",), "a")], 2: [Param(("int",), "a"), Param(("double",), "b")]}
+            ns = {"call0": (0,), "call1": (1,), "call2": (2,), "call_all": (0, 1, 2),
+                  "call_01": (0, 1)}[f]
+            return [Func("operator ()", pl[n], ("int",), const=True, cls=C) for n in ns]
+        if f == "index_ref":
+            return [Func("operator []", [Param(("int",), "i")], ("ref", zV), cls=C)]
+        if f in ("prefix", "postfix", "prepost"):
+            pre = Func("operator " + s, [], ("ref", me), cls=C, roles=("unary_op",))
+            post = Func("operator " + s, [Param(("int",), None)], me, cls=C)
+            post.free_roles = ("unary_op",)       # one operand, written with a dummy int
+            return {"prefix": [pre], "postfix": [post], "prepost": [pre, post]}[f]
+        if f == "arrow":
+            return [Func("operator ->", [], ("ptr", zV), const=True, cls=C, roles=("unary_op",))]
+        if f == "comma":
+            return [Func("operator ,", [cref], me, const=True, cls=C)]
+        if f == "assign_int":
+            return [Func("operator =", [Param(("int",), "v")], ("ref", me), cls=C)]
+        if f == "assign_both":
+            return [Func("operator =", [cref], ("ref", me), cls=C),
+                    Func("operator =", [Param(("int",), "v")], ("ref", me), cls=C)]
+        if f == "global_unary":
+            g = Func("operator " + s, [Param(("ref", ("const", me)), "a")], me, is_global=True)
+            g.free_roles = ("unary_op",)          # interrogate flags only the member form
+            g.shared = True
+            return [g]
         if f == "index":
             return [Func("operator []", [Param(("int",), "i")], ("int",), const=True, cls=C)]
         if f == "global_binary":
-            return [Func("operator " + s, [Param(("ref", ("const", me)), "a"),
-                                            Param(("ref", ("const", me)), "b")], me, is_global=True)]
+            g = Func("operator " + s, [Param(("ref", ("const", me)), "a"),
+                                       Param(("ref", ("const", me)), "b")], me, is_global=True)
+            g.shared = True           # global operators of all classes are overloads of one name
+            return [g]
         raise ValueError(f)
 
     def render(self):
@@ -1344,7 +1372,7 @@ class OpAtom(Atom5):
         if self.form == "cast":
             fs = fs[0]
         C = self.cname
-        if self.form == "global_binary":
+        if self.form in ("global_binary", "global_unary"):
             return ("class %s {\n__published:\n  %s();\n};\n__begin_publish\n%s\n__end_publish\n"
                     % (C, C, fs[0].render()))
         return "class %s {\n__published:\n%s};\n" % (C, "".join("  %s\n" % f.render() for f in fs))
@@ -1359,10 +1387,18 @@ class OpAtom(Atom5):
             f.ret = t                       # the wrapper returns the target type
             cls["n_casts"] = 1
             return {"functions": fs, "classes": [cls]}
-        if self.form == "both":
+        if self.form in ("both", "prepost"):
             # the database keeps the unary form under its own function record
             return {"functions": fs, "classes": [cls], "unary_binary_split": True}
-        return {"functions": fs, "classes": [cls]}
+        t = {"functions": fs, "classes": [cls]}
+        if not getattr(fs[0], "shared", False):
+            t["record_count"] = {fs[0].scoped(): 1}
+        if self.form == "index_ref":
+            # a non-const operator [] returning a reference also gets an item-assignment form
+            t["functions"] = fs + [Func("operator []=", [Param(("int",), "i"),
+                                                         Param(("ref", ("const", zV)), "assign_val")],
+                                        ("void",), cls=C, roles=("item_assignment",))]
+        return t
 
 
 def op_space(tier):
@@ -1375,15 +1411,21 @@ def op_space(tier):
         out.append(("assign", s))
     for s in ("int", "bool", "double", "zVptr", "constzVptr"):
         out.append(("cast", s))
-    out += [("call", ""), ("index", "")]
-    for s in ("+", "-", "*", "=="):
+    out += [("call", ""), ("index", ""), ("call0", ""), ("call1", ""), ("call2", ""),
+            ("call_all", ""), ("call_01", ""), ("index_ref", ""), ("arrow", ""), ("comma", ""),
+            ("assign_int", ""), ("assign_both", "")]
+    for s in ("++", "--"):
+        out += [("prefix", s), ("postfix", s), ("prepost", s)]
+    for s in ("+", "-", "*", "/", "%", "==", "!=", "<", "<=", "<<", "&", "|", "^", "&&"):
         out.append(("global_binary", s))
+    for s in ("-", "+", "~", "!", "*"):
+        out.append(("global_unary", s))
     return out
 
 
 # ------------------------------------------------------------- C05: comment layouts
 
-CSTYLES = ("none", "cpp", "doc3", "c", "docc", "block")
+CSTYLES = ("none", "cpp", "doc3", "c", "docc", "block", "blockgap")
 CKINDS = ("method", "static", "ctor", "operator", "data", "enum", "enumval", "nclass",
           "property", "seq", "gfunc", "gclass", "genum", "gvar", "typedef")
 TRAILS = ("none", "cpp", "c")
@@ -1413,7 +1455,9 @@ class CommentAtom(Atom5):
         tk, tk2 = "TK_" + p, "TK2_" + p
         return {"none": [], "cpp": [ind + "// " + tk], "doc3": [ind + "/// " + tk],
                 "c": [ind + "/* " + tk + " */"], "docc": [ind + "/** " + tk + " */"],
-                "block": [ind + "// " + tk, ind + "// " + tk2]}[s]
+                "block": [ind + "// " + tk, ind + "// " + tk2],
+                # two paragraphs separated by an empty `//` line: still one block
+                "blockgap": [ind + "// " + tk, ind + "//", ind + "// " + tk2]}[s]
 
     def _between(self, ind):
         L = self._comment(ind) + [""] * self.dist
@@ -1493,16 +1537,16 @@ class CommentAtom(Atom5):
         if self.style != "none":
             a = {tgt} if self.attached() else set()
             allowed["TK_" + p] = a
-            if self.style == "block":
+            if self.style in ("block", "blockgap"):
                 allowed["TK2_" + p] = a
             if self.attached() and self.kind != "typedef":
                 must["TK_" + p] = tgt
-                if self.style == "block":
+                if self.style in ("block", "blockgap"):
                     must["TK2_" + p] = tgt
         if self.trail != "none":
             a = {prev}
             # a `//` trailing comment directly followed by a `//` comment line is one block
-            merges = self.trail == "cpp" and self.style in ("cpp", "doc3", "block")
+            merges = self.trail == "cpp" and self.style in ("cpp", "doc3", "block", "blockgap")
             if self.trailing_reaches_target() or (merges and self.attached()):
                 a.add(tgt)
             allowed["TR_" + p] = a
